@@ -139,6 +139,40 @@ Theorem ode_from_mna (N : tnetlist) (v ib : Z -> sig) (E : list K) :
 Proof. intros HF H. apply (ode_from_sdomain N v ib E HF). intros s Hs. destruct (H s Hs) as [Hv [Hib [W [T [ET [Hn Hb]]]]]].
   split; [exact Hv|]. split; [exact Hib|]. apply (mna_iff_phys K (net_at s N) T _ _ W ET). split; assumption. Qed.
 
+(* ---- the kind invariant discharges the K precondition ------------------------------------------------
+   Netlist._analysis_groups: a netlist with any initial condition is solved as ONE initial value problem
+   (every element gets kind ivp); a K element's initial currents are those of its two inductors.  Under this
+   invariant (validated per case: Lcapy's is_IVP flag = "some element has an initial condition") the
+   condition k_ic_ok of transfer_K holds for every K of the netlist. *)
+Definition has_ic_net (N : tnetlist) : Prop := exists ce, In ce N /\ t_has_ic (snd ce) = true.
+Definition kind_inv (N : tnetlist) : Prop := has_ic_net N -> forall ce, In ce N -> t_kind (snd ce) = KIvp.
+Definition k_linked (N : tnetlist) : Prop := forall e, In (cK, e) N ->
+  (t_ic1 e <> f0 -> exists eL, In (cL, eL) N /\ tbown eL = tbL1 e /\ t_has_ic eL = true) /\
+  (t_ic2 e <> f0 -> exists eL, In (cL, eL) N /\ tbown eL = tbL2 e /\ t_has_ic eL = true).
+Lemma k_ic_ok_wf (N : tnetlist) e : kind_inv N -> k_linked N -> In (cK, e) N -> k_ic_ok e.
+Proof. intros Hk Hl Hin. destruct (Hl e Hin) as [H1 H2].
+  assert (Hivp : (exists eL, In (cL, eL) N /\ t_has_ic eL = true) -> k_ic_ok e).
+  { intros [eL [HinL Hic]]. left. pose proof (Hk (ex_intro _ (cL, eL) (conj HinL Hic)) (cK, e) Hin) as Ek. cbn [snd] in Ek. rewrite Ek. reflexivity. }
+  destruct (fdec K (t_ic1 e) f0) as [Z1|N1].
+  - destruct (fdec K (t_ic2 e) f0) as [Z2|N2]; [right; split; assumption|].
+    destruct (H2 N2) as [eL [A [_ B]]]. apply Hivp. exists eL. split; assumption.
+  - destruct (H1 N1) as [eL [A [_ B]]]. apply Hivp. exists eL. split; assumption. Qed.
+Definition tsupported_wf (cl : cname) (e : tctx K) : Prop :=
+  match cl with cK => akind_eqb (t_kind e) KDc = false | _ => tsupported cl e end.
+Lemma tsupported_of_wf (N : tnetlist) : kind_inv N -> k_linked N ->
+  Forall (fun ce => tsupported_wf (fst ce) (snd ce)) N -> Forall (fun ce => tsupported (fst ce) (snd ce)) N.
+Proof. intros Hk Hl HF. rewrite Forall_forall in *. intros [cl e] Hin. specialize (HF (cl, e) Hin). cbn [fst snd] in *.
+  destruct cl; try exact HF. cbn [tsupported tsupported_wf] in *. split; [exact HF | exact (k_ic_ok_wf N e Hk Hl Hin)]. Qed.
+(* ode_from_mna for well-formed netlists: no condition on the initial currents of coupled inductors *)
+Theorem ode_from_mna_wf (N : tnetlist) (v ib : Z -> sig) (E : list K) :
+  kind_inv N -> k_linked N -> Forall (fun ce => tsupported_wf (fst ce) (snd ce)) N ->
+  (forall s, ~ In s E -> (forall n, pole_free s (v n)) /\ (forall j, pole_free s (ib j)) /\ wf_net (net_at s N) /\
+     exists T, assemble (net_at s N) = SOk T /\
+       (forall r, 0 <= r -> node_res T (fun n => Lval s (v n)) (fun j => Lval s (ib j)) r = f0) /\
+       (forall q, 0 <= q -> br_res T (fun n => Lval s (v n)) (fun j => Lval s (ib j)) q = f0)) ->
+  tphys N v ib.
+Proof. intros Hk Hl HF. apply ode_from_mna. exact (tsupported_of_wf N Hk Hl HF). Qed.
+
 (* what a branch row says for an inductor that is alone in its row: the ODE with the initial state *)
 Theorem inductor_row (e : tctx K) (v ib : Z -> sig) :
   seq (tbrel_L e v ib (tbown e)) szero ->
@@ -149,3 +183,4 @@ Proof. unfold tbrel_L, tind. rewrite ind_refl. intros [A Bq]. split; intro; intr
 End C02net.
 
 Print Assumptions ode_from_sdomain. Print Assumptions sdomain_from_ode. Print Assumptions ode_from_mna. Print Assumptions inductor_row.
+Print Assumptions k_ic_ok_wf. Print Assumptions ode_from_mna_wf.
